@@ -24,6 +24,9 @@ type Shared struct {
 	specs *SpecDB
 	funcs map[string]*ssa.Function
 	mu    sync.Mutex
+	// one note per function whose contract identifiers were transported along a pure renaming of locals (shape.go)
+	renameNotes []string
+	newHelpers  map[*ssa.Function]bool
 }
 
 func loadShared(repo string, pkgPaths []string, extDir string) (*Shared, error) {
@@ -73,6 +76,8 @@ func loadShared(repo string, pkgPaths []string, extDir string) (*Shared, error) 
 			sh.funcs[fn.String()] = fn
 		}
 	}
+	sh.renameNotes = sh.applyRenames()
+	sh.findNewHelpers()
 	return sh, nil
 }
 
@@ -81,7 +86,7 @@ func (sh *Shared) newEngine() *Engine {
 		sc: &Script{seen: map[string]bool{}}, compSort: map[string]string{}, structs: map[string]*types.Struct{},
 		guards: map[string][]*GuardSpec{}, assumptions: map[string]bool{}, havocCallees: map[string]bool{},
 		extDefault: map[string]bool{}, errGlobals: map[string]int{}, modMemo: map[*ssa.Function]*modInfo{},
-		typeIDs: map[string]int{}, strConsts: map[string]string{}, fnByName: sh.funcs}
+		typeIDs: map[string]int{}, strConsts: map[string]string{}, fnByName: sh.funcs, newHelpers: sh.newHelpers}
 	for _, g := range sh.specs.Guards {
 		for _, f := range g.Fields {
 			k := shortPath(g.Type) + "." + f
@@ -527,19 +532,26 @@ func solveAll(sc *Script, tag string, opt Options) {
 				sb.WriteString(sc.lines[li])
 				sb.WriteByte('\n')
 			}
-			sb.WriteString("(push 1)\n(assert " + ob.Reach + ")\n(assert (not " + ob.Formula + "))\n(check-sat)\n(pop 1)\n")
+			sb.WriteString(fmt.Sprintf("(push 1)\n(assert %s)\n(assert (not %s))\n(echo \"@ob %d\")\n(check-sat)\n(pop 1)\n", ob.Reach, ob.Formula, oi))
 		}
 		per := 2000
 		results, el, _ := runBatch(sb.String(), opt.TmpDir, tag, per, 20+len(sc.obls)*per/1000)
-		for k, oi := range order {
-			if k >= len(results) {
-				break
-			}
+		for _, oi := range order {
 			ob := sc.obls[oi]
-			if results[k] == "unsat" {
+			// results are keyed by the echoed obligation index, never by position; a vacuity guard that
+			// comes back unsat is confirmed by the individual race below before it is reported
+			if (ob.Cover || ob.Canary) && results[oi] == "sat" {
+				// the solver exhibited an execution that reaches this point: the guard is met
+				ob.Status = "sat"
+				ob.Solver = "z3-new(batch)"
+				ob.Time = el / float64(len(results)+1)
+				delete(pending, oi)
+				continue
+			}
+			if results[oi] == "unsat" && !ob.Cover && !ob.Canary {
 				ob.Status = "unsat"
 				ob.Solver = "z3-new(batch)"
-				ob.Time = el / float64(len(results))
+				ob.Time = el / float64(len(results)+1)
 				delete(pending, oi)
 			}
 		}
@@ -553,8 +565,8 @@ func solveAll(sc *Script, tag string, opt Options) {
 		ob := sc.obls[idx[k]]
 		script := obligationScript(sc, ob, true)
 		to := opt.Timeout
-		if (ob.Cover || ob.Canary) && to > 3 {
-			to = 3
+		if (ob.Cover || ob.Canary) && to > 2 {
+			to = 2
 		}
 		r := raceSolvers(script, to, opt.TmpDir, fmt.Sprintf("%s.%d", tag, idx[k]), opt.Solvers)
 		ob.Status = r.Status
@@ -581,6 +593,8 @@ func main() {
 		cmdCheck(os.Args[2:])
 	case "dump":
 		cmdDump(os.Args[2:])
+	case "shapes":
+		cmdShapes(os.Args[2:])
 	default:
 		fmt.Fprintln(os.Stderr, "unknown command")
 		os.Exit(2)
@@ -754,4 +768,79 @@ func writeJSON(path string, v interface{}) error {
 		return err
 	}
 	return os.WriteFile(path, append(b, '\n'), 0644)
+}
+
+// govc shapes [-check]: (re)write /verif/baseline/shapes.json for every function under contract in the packages named
+// by props/*.json; with -check only report whether the committed baseline matches the tree
+func cmdShapes(args []string) {
+	fs := flag.NewFlagSet("shapes", flag.ExitOnError)
+	repo := fs.String("repo", "/repo", "")
+	verif := fs.String("verif", "/verif", "")
+	chk := fs.Bool("check", false, "")
+	fs.Parse(args)
+	files, _ := filepath.Glob(filepath.Join(*verif, "props", "*.json"))
+	set := map[string]bool{}
+	for _, f := range files {
+		b, err := os.ReadFile(f)
+		if err != nil {
+			continue
+		}
+		var c struct {
+			Packages []string `json:"packages"`
+		}
+		json.Unmarshal(b, &c)
+		for _, p := range c.Packages {
+			set[p] = true
+		}
+	}
+	var pk []string
+	for p := range set {
+		pk = append(pk, p)
+	}
+	sort.Strings(pk)
+	sh, err := loadShared(*repo, pk, "")
+	if err != nil {
+		fmt.Fprintln(os.Stderr, err)
+		os.Exit(2)
+	}
+	out := map[string]shapeEntry{}
+	for name, sp := range sh.specs.Funcs {
+		fn := sh.funcs[name]
+		if fn == nil || len(fn.Blocks) == 0 || sp.Trusted {
+			continue
+		}
+		r := rootOf(fn)
+		if _, ok := out[r.String()]; !ok {
+			out[r.String()] = funcShape(r)
+		}
+	}
+	if *chk {
+		base := loadShapes()
+		diff := 0
+		for k, v := range out {
+			if b, ok := base[k]; !ok || b.Hash != v.Hash || strings.Join(b.Names, ",") != strings.Join(v.Names, ",") {
+				fmt.Println("differs:", k)
+				diff++
+			}
+		}
+		fmt.Printf("%d functions under contract, %d differ from the baseline\n", len(out), diff)
+		if diff > 0 {
+			os.Exit(1)
+		}
+		return
+	}
+	os.MkdirAll(filepath.Dir(shapesFile), 0755)
+	fl := sh.repoFuncNames()
+	for _, p := range pk {
+		fl = append(fl, "pkg:"+p)
+	}
+	if err := writeJSON(funcsFile, fl); err != nil {
+		fmt.Fprintln(os.Stderr, err)
+		os.Exit(2)
+	}
+	if err := writeJSON(shapesFile, out); err != nil {
+		fmt.Fprintln(os.Stderr, err)
+		os.Exit(2)
+	}
+	fmt.Printf("wrote %s: %d functions\n", shapesFile, len(out))
 }
